@@ -43,10 +43,10 @@ CLAIMED = {
    design='§7 C15'),
  'C16': dict(
    text='Theorem cert_sound (all regexes, strings, states): a certificate computed from the shape of an expression bounds the number of derivations and the size of the complete backtracking search tree by c*N^d; '
-        'rule_work_poly instantiates it for the regenerated table; rules_poly_or_template (decide) says every rule has a certificate except the two quoted-string rules of shape q(qq|\\q|[^q])*q '
-        '(unambiguous but not syntactically deterministic; open clause). Timing harness: pump strings for every rule/prefix/suffix tokenized in killable subprocesses under a budget.',
-   note='Trusted: Lean kernel; translator; assumption that CPython re explores at most the modelled search tree. Partial: the two string rules are covered by the timing harness only.',
-   technique='Lean 4 theorem by structural induction over regex AST (polynomial certificate soundness) + decide over regenerated table + timing exploration',
+        'rules_poly_or_template (decide over the regenerated table): every rule has a certificate or is a quoted-string rule of shape q(qq|\\q|[^q])*q, for which string_rules_poly proves a linear bound by a parity argument; '
+        'every_rule_poly: every rule of the table has a polynomial bound. Timing harness: pump strings for every rule/prefix/suffix tokenized in killable subprocesses under a budget.',
+   note='Trusted: Lean kernel; translator; assumption that CPython re explores at most the modelled search tree (wall-clock is only measured).',
+   technique='Lean 4 theorem by structural induction over regex AST (polynomial certificate soundness) + parity argument for the string template + decide over regenerated table + timing exploration',
    design='§7 C16'),
  'C19': dict(
    text='Theorems over input normalisation with codecs as parameters: bytes+encoding, UTF-8 bytes, streams normalise to the same text as the str; latin1_fallback (non-UTF-8 bytes are read as Latin-1) with the '
